@@ -501,6 +501,12 @@ ACEq(a, b) ==
             \A i \in 1..Len(a.a) :
                 Cardinality({j \in 1..Len(b.a) : ACEq(a.a[i], b.a[j])}) =
                 Cardinality({j \in 1..Len(a.a) : ACEq(a.a[i], a.a[j])})
+       ELSE IF a.op = "array_value"
+       THEN \* the literal lists its (distinct index, value) assignments in an unspecified order (FormulaManager.Array
+            \* sorts them by object identity)
+            /\ ACEq(a.a[1], b.a[1])
+            /\ \A i \in 1..((Len(a.a) - 1) \div 2) : \E j \in 1..((Len(b.a) - 1) \div 2) :
+                   ACEq(a.a[2 * i], b.a[2 * j]) /\ ACEq(a.a[2 * i + 1], b.a[2 * j + 1])
        ELSE \A j \in 1..Len(a.a) : ACEq(a.a[j], b.a[j])
 
 RECURSIVE RenameSyms(_, _)
